@@ -9,7 +9,7 @@ use crate::{for_both, hx, Ctx};
 use blsful::*;
 use serde_json::json;
 
-pub const RULE: &str = "differential, byte level: (a) seeds of length 0..=64 and 1024 -> SecretKey::from_hash vs reference HKDF KeyGen written over HMAC-SHA-256; SecretKey::random with a known-stream RNG vs KeyGen(first 32 stream bytes); (b) keys (edge + random) -> public_key vs reference SkToPk; (c) keys x messages (length classes; and messages equal to / starting with / one byte short of the signer's own public key) x 3 schemes -> sign vs reference Sign, incl. wire form = variant byte || compressed point; proof_of_possession vs PopProve; (d) aggregate / multi-signature accumulation vs reference point sum; (e) cross-verification both ways; (f) the 8 signature/PoP tag constants vs the draft's literal strings (finite, exhaustive). Distinct by (suite, op, input bytes); non-trivial = both sides produced an output that was compared byte for byte.";
+pub const RULE: &str = "differential, byte level: (a) seeds of length 0..=64 and 1024 -> SecretKey::from_hash vs reference HKDF KeyGen written over HMAC-SHA-256; SecretKey::random with a known-stream RNG vs KeyGen(first 32 stream bytes); (b) keys (edge + random) -> public_key vs reference SkToPk; (c) keys x messages (length classes; and messages equal to / starting with / one byte short of the signer's own public key) x 3 schemes -> sign vs reference Sign, incl. wire form = variant byte || compressed point; proof_of_possession vs PopProve; (d) aggregate / multi-signature accumulation vs reference point sum; (e) cross-verification both ways; (f) the 8 signature/PoP tag constants vs the draft's literal strings (finite, exhaustive). Distinct by (suite, op, input bytes); non-trivial = both sides produced an output that was compared byte for byte. (g) history clusters (3 quick / 16 thorough per group, one with msg = the key's own public-key bytes): {sign, verify} x 3 schemes x 2 group assignments + proof of possession x 2 over one (key, message), every ordered pair (a,b) asked as a,b,b,a; every answer must be the reference's bytes.";
 
 pub fn run(ctx: &mut Ctx) {
     for_both!(run_suite, ctx);
@@ -42,6 +42,24 @@ fn run_suite<C: Suite>(ctx: &mut Ctx) {
     }
     for name in ["NUL", "AUG", "POP_SIG", "POP_POP"] {
         ctx.require(&format!("{n}/tag/{name}"));
+    }
+
+    // (g) history clusters: sign / verify / prove possession of one key over one message under
+    // every scheme and both group assignments, in every ordered pair as a,b,b,a; every answer
+    // must be the reference's bytes whatever was asked before
+    ctx.require(&format!("{n}/history"));
+    for i in 0..ctx.tier.pick(3, 16) {
+        g += 1;
+        if !ctx.mine(g) {
+            continue;
+        }
+        let mut rng = ctx.rng(g);
+        let sk = gen::random_scalar(&mut rng);
+        let mut msg = gen::message([32usize, 0, 48, 96, 1, 129][i % 6], gen::Content::Random, &mut rng);
+        if i % 3 == 1 {
+            msg = pk_bytes(&sk_from_rs::<C>(&sk).public_key());
+        }
+        super::c01::history_cluster::<C>(ctx, "C03", &sk, &msg);
     }
 
     // (a) KeyGen from seeds
